@@ -43,7 +43,7 @@ static void sb_val(const lp_value_t* v) {
 }
 
 /* ------------------------------------------------------------------ polynomials with structured roots */
-typedef struct { int deg; long c[5]; } hfac;
+typedef struct { int deg; long c[8]; } hfac;
 /* irreducible building blocks over Z */
 static const hfac hfacs[] = {
   {1, {0, 1}}, {1, {-1, 1}}, {1, {1, 1}}, {1, {-2, 1}}, {1, {2, 1}}, {1, {-3, 1}}, {1, {-1, 2}}, {1, {1, 2}}, {1, {-3, 4}}, {1, {-1, 3}}, {1, {2, 3}},
